@@ -41,7 +41,7 @@ func main() {
 	id := 0
 	next := func() int { id++; return id }
 
-	// ---- corpus 1: the duplicate-coinbase witness (fixed by dc1450e9): block 4
+	// ---- corpus 1: the duplicate-coinbase witness (fixed by ccb9f8c7): block 4
 	// reuses block 1's coinbase; before the fix outpoint (cb1,1) was spent in
 	// block 3 and again in block 6.
 	history(run, st, sh, next(), rng.Fork(), func(h *ledgerh.H) {
@@ -113,7 +113,7 @@ func main() {
 		}
 		history(run, st, sh, next(), rng.Fork(), func(h *ledgerh.H) { h.Random(steps) })
 	}
-	st.Sample(map[string]interface{}{"history": 1, "what": "corpus: duplicate coinbase witness (rejected since dc1450e9; before, the per-address list held the coinbase outputs twice)"})
+	st.Sample(map[string]interface{}{"history": 1, "what": "corpus: duplicate coinbase witness (rejected since ccb9f8c7; before, the per-address list held the coinbase outputs twice)"})
 	st.Sample(map[string]interface{}{"history": 2, "what": "corpus: 4-input join from one parent disconnected by a reorganisation, inputs re-spent singly"})
 	st.Traces = st.Evals
 	sh.Flush()
